@@ -12,6 +12,10 @@
 (*   "schedok" | "schedraise" cls    the schedule pass accepted / refused   *)
 (*   "bcyc" ... "ecyc"               closed loop: one sim_tick()            *)
 (*   "bs" b | "be" b                 update block b was called / returned   *)
+(*                                   (the block BODY: for a block wrapped   *)
+(*                                   into a greenlet ticker the body as it  *)
+(*                                   runs inside the greenlet; for a net    *)
+(*                                   step the generated net block)          *)
 (*   "inv" m                         actual method m was entered (by the    *)
 (*                                   running block / test-bench call)       *)
 (*   "xs" x | "xe" x                 open loop: the test bench calls the    *)
